@@ -13,6 +13,8 @@ CLAIMED = {
          "All 16 flag configurations x {fail,nofail}: every invoked validator method is clean; per-file tables co-sorted by offsets; box-coordinate expectation is lo+idx*dx with tolerant compare; CLI polarity."),
  "C04": ("must-pass-through + error-discipline rules + E1 checked pairs",
          "Default passes on every path; isgood/raise discipline; index range and component count compared at each recorded offset; whole-FAB walk with exact comparisons to EOF; no swallowing handlers."),
+ "C05": ("E1 abstract interpretation of the strainers + E2 task/scatter normal forms + E4 writer grammar",
+         "Whole-FAB window at the recorded offset, kept-field selection, F-order serialisation, header count = components written, offset capture; names/indices lock-step; scatter map; global-header writer grammar vs reader oracle with exact float formats; level-header rewriter copies min/max rows as strings; CLI wiring; sinks at the output."),
  "C13": ("E3 path-class abstract interpretation + exception-flow rules",
          "All 38 write sinks classified (never inside an input), default outputs are normalised siblings, read-only tools reach no sink, no sink under a completing broad handler, lazy pool results fetched, CLI handlers exit non-zero."),
  "C15": ("E1 scan invariant + pool/iterator protocol rules",
